@@ -17,6 +17,7 @@ RULE = (
     "set and registering the peer); BACK-PRESSURE: every history of length <= 3 x every call of it x each of two peers accepting only 0..2 bytes during that call (the call is Pending, the peer becomes writable, the call completes: every peer, the slow one included, and a late joiner have been told); seeded longer histories with 3 topics and several joiners. Non-trivial: at least "
     "two peers and one set change. Spec oracle (python): at the end every live peer has been told exactly the socket's "
     "current set (count > 0 iff in the set) and all peers agree."
+    " Family bad-frame-then-subscribe: a peer's stream fails in the decoder (malformed frame) while others are healthy, then subscribe/unsubscribe follow: the failed peer's connection is released entirely (both halves) and the others are told every change."
 )
 ASSUMPTIONS = ["the set re-announced to a late joiner comes out of a HashSet: compared as a multiset of messages, not as a byte order"]
 TRUSTED = ["scc::HashMap iteration visits every registered peer exactly once"]
@@ -154,6 +155,23 @@ def cases(tier, rng):
             c.expect = ("abandoned-join", hist + [("sub", b"ab")])
             out.append(c)
             n += 1
+    # a peer sends something the decoder rejects (a ZMTP 3.1 PING, an unknown command): recv reports the error ONCE and the
+    # connection is given up as a whole — if any half of it is kept, the peer is still a peer and must be told later changes
+    for junk in (zmtp.command(b"PING", []), zmtp.frame(b"\x04PINGxxxx", command=True), zmtp.frame(b"\x03BAD", command=True)):
+        sc = wg.Script()
+        sc.sock(1, "SUB")
+        sc.attach(1, 1, "PUB", b"p1")
+        sc.attach(1, 2, "PUB", b"p2")
+        add_op(sc, ("sub", b"a"))
+        sc.add("wire 1", "wire 2", f"reveal 1 {wg.hx(junk)}")
+        f = sc.fut()
+        sc.add(f"recv {f} 1", f"poll {f}", f"drop {f}", "halves 1")
+        add_op(sc, ("sub", b"b"))
+        sc.add("wire 1", "wire 2", "halves 1")
+        c = sc.case(f"bad-frame-then-subscribe#{n}", ["bad-frame-then-subscribe"])
+        c.expect = ("bad-frame", [("sub", b"a"), ("sub", b"b")])
+        out.append(c)
+        n += 1
     # a CROWD of peers around one whose connection fails: whatever the hash order of the peer table, the failing peer
     # almost surely has a successor in the walk — every healthy peer must still be told every change
     for kind in ("BrokenPipe", "ConnectionReset"):
@@ -217,6 +235,15 @@ def oracle(case, lines):
         return "panic/abort (a failing peer must not take the caller down)"
     if not case.expect:
         return None
+    if case.expect[0] == "bad-frame":
+        res = list(zip(case.ops, lines[1:]))
+        hv = [l for op, l in res if op == "halves 1"][-1]
+        w1 = [l for op, l in res if op == "wire 1"][-1]
+        told_b = "0003016162" in w1 or w1.endswith("00020162")
+        if hv != "halves r=1 w=1" and not told_b:
+            return (f"after a frame the decoder rejected, part of the peer's connection is still held ({hv}: r/w = read/write half "
+                    f"released) — it is still a peer — but it was not told the later subscription: {w1[:60]}")
+        case = type(case)(case.name, case.engine, case.ops, case.tags, ("agree", case.expect[1], [2]))
     if case.expect[0] == "abandoned-join":
         res = list(zip(case.ops, lines[1:]))
         hv = [l for op, l in res if op == "halves 2"]
@@ -256,6 +283,8 @@ def oracle(case, lines):
 
 
 def nontrivial(case, lines):
+    if case.expect is not None and case.expect[0] == "bad-frame":
+        return any(l.startswith("ready err") for l in lines)
     if case.expect is not None and case.expect[0] == "abandoned-join":
         return any(l == "halves r=1 w=1" for l in lines)
     return case.expect is not None and len(case.expect[2]) >= 2 and len(case.expect[1]) >= 1
